@@ -80,7 +80,7 @@ variable (σ : St) (t : Nat)
     | exact sendDropTail_rplain _ t
     | rplain_tac
 @[simp] theorem freeEnd_rplain (k : MK) : ((freeEnd σ t k).th t).pc.rPhase = false := by
-  unfold freeEnd; split <;> exact mgrDone_rplain _ t _
+  unfold freeEnd; exact mgrDone_rplain _ t _
 @[simp] theorem freeTail_rplain (k : MK) : ((freeTail σ t k).th t).pc.rPhase = false := by
   unfold freeTail; repeat' split
   all_goals first | exact mgrDone_rplain _ t _ | rplain_tac
